@@ -20,7 +20,9 @@ def g_faults(f):
     # a lost answer (call applied, error returned) looks to the reconcile exactly like a rejection: the
     # model predicts the calls attempted and the error flags; the store after the step is re-read anyway
     return gC("MkFaults", gL([P.nm(n) for n in f.get("create_nodes") or []]), gL([P.nm(n) for n in f.get("delete_pods") or []]),
-              gL([P.nm(n) for n in f.get("patch_pods") or []]), gB(bool(f.get("status"))))
+              gL([P.nm(n) for n in f.get("patch_pods") or []]), gB(bool(f.get("status"))),
+              # a failing List of the nodes, pods or settings: the sync ends before anything is planned
+              gB(any(k in ("Node", "Pod", "ExtendedDaemonsetSetting") for k in f.get("list_fail") or [])))
 
 
 def g_backoff(entries):
@@ -118,7 +120,8 @@ def encode_eds(step, options):
         pods_l.reverse()
     sn = gC("MkEdsSnap", gZ(step["now"]), gO(e, P.g_eds), gL(rss_l),
             gL(nodes), gL(pods_l), mode, gB(bool(f.get("status"))), gB(bool(f.get("update"))),
-            gL([P.nm(n) for n in f.get("rs_delete") or []]), gB(bool(f.get("rs_create"))))
+            gL([P.nm(n) for n in f.get("rs_delete") or []]), gB(bool(f.get("rs_create"))),
+            gB("ExtendedDaemonSetReplicaSet" in (f.get("list_fail") or [])))
     writes = []
     for c in step["calls"]:
         if c["kind"] == "ExtendedDaemonSet" and c["verb"] == "update":
